@@ -21,6 +21,17 @@ CHECKS = {
         "Trusted: the `regex` crate; the reference model's reading of doc/configure.md; probes the documentation "
         "leaves open are exempt (counted in the evidence).",
     ),
+    "C12": (
+        "exploration",
+        "eligibility-predicate + conservation runtime monitor on the real BackendMap",
+        "DESIGN.md section 3 C12",
+        "Random histories (add/remove/re-add, health and retry transitions, real non-blocking connects, policy switches "
+        "among all six algorithms, weights, backup flags, sticky ids) on the real BackendMap/BackendList/Backend; after "
+        "every step selections are judged by an eligibility predicate recomputed from public fields before and after the "
+        "call (fail-open per doc), backup/sticky/affinity rules and counter conservation. Held on the histories explored.",
+        "Trusted: the predicate's reading of the statement and doc/health_checks.md; back-off expiry by wall clock is "
+        "exercised in ~1% of histories; the dead API BackendMap::close_backend_connection (no caller in sozu) is not driven.",
+    ),
 }
 
 ALL = ["C%02d" % i for i in range(1, 21)]
